@@ -240,6 +240,7 @@ def _is_nonlinear(e):
 def quick_sat(hyps, timeout_ms=300, full=True):
     """In-process feasibility check used for path pruning. Returns False only if definitely unsat.
     Cheap first: the linear part of the path condition decides almost every branch of the verified code."""
+    timeout_ms = int(timeout_ms * _load_scale())
     lin = [h for h in hyps if not _is_nonlinear(h)]
     s = z3.Solver()
     s.set("timeout", timeout_ms)
